@@ -83,8 +83,72 @@ def gen_parallel(rng, size):
     return dict(seed=rng.randint(0, 1000), mod=rng.choice([1, 3, 3, 1 << 20]), entities=ents, pools=[], uops=uops, ext=ext, focus='parallel')
 
 
+def gen_late(rng, size):
+    """Devices constructed while the simulation is in progress, wired through their constructors (`Device(upstream=[...])` between two
+    events): a short line whose only exit is blocked, so finished parts wait flagged in the devices in front of it; then a new sink — or
+    a new handler / processor / buffer / flow controller and, a little later, a sink behind it — is created with some of those devices
+    as upstream (C03: a connection added mid-run wakes the waiting upstream at that instant; C20/C13: a device created late is initialised
+    at its creation time)."""
+    big = size != 'small'
+    ents = [dict(kind='source', cycle=rng.choice([4, 4, 8]), budget=rng.choice([None, 6, 10]), gen_value=8, gen_quality=8, gen_batch=0)]   # 1
+    nid, mids = 1, []
+    width = rng.choice([1, 1, 2])
+    for _ in range(rng.choice([1, 1, 2])):
+        cur = []
+        ups = [nid] if not mids else list(mids[-1])
+        for _ in range(width if not mids else 1):
+            k = rng.choice(['handler', 'processor', 'processor', 'buffer'])
+            e = dict(kind=k, up=list(ups))
+            if k == 'buffer':
+                e.update(min_delay=rng.choice([0, 0, 4]), capacity=rng.choice([1, 2, 3]))
+            else:
+                e['cycle'] = rng.choice([0, 4, 8, 12])
+            ents.append(e)
+            nid += 1
+            cur.append(nid)
+        mids.append(cur)
+    last = list(mids[-1])
+    ents.append(dict(kind='sink', cycle=rng.choice([0, 0, 4]), collect=True, up=list(last)))
+    nid += 1
+    sink = nid
+    uops, ext = [[['block', sink, 1]]], [['init'], ['at', rng.choice([0, 0, 0, 8]), 0, 184]]
+    if rng.random() < 0.4:
+        uops.append([['block', sink, 0]])
+        ext.append(['at', rng.choice([40, 56, 72]), 1, rng.choice([32, 184])])
+    k1 = rng.choice(['sink', 'sink', 'sink', 'handler', 'processor', 'buffer', 'pfc'])
+    pool = last + ([u for st in mids[:-1] for u in st] if rng.random() < 0.3 else [])
+    ups1 = rng.sample(pool, min(len(pool), rng.choice([1, 1, 2])))
+    e1 = dict(kind=k1, late=1, up=list(ups1))
+    if k1 == 'sink':
+        e1.update(cycle=rng.choice([0, 0, 4, 8]), collect=True)
+    elif k1 == 'buffer':
+        e1.update(min_delay=rng.choice([0, 4]), capacity=rng.choice([1, 2, None]))
+    elif k1 in ('handler', 'processor'):
+        e1['cycle'] = rng.choice([0, 4, 8])
+        if k1 == 'processor' and rng.random() < 0.4:
+            e1['on_finish'] = [['log', 1]]
+    ents.append(e1)
+    steps = lambda a, b: [['step']] * rng.randint(a, b)
+    ext += steps(6, 30)
+    ext.append(['late', 1001] + ups1)
+    if k1 != 'sink':
+        ents.append(dict(kind='sink', late=2, cycle=rng.choice([0, 0, 4]), collect=True, up=[1001]))
+        ext += steps(0, 6)
+        ext.append(['late', 1002, 1001])
+        if k1 == 'processor' and rng.random() < 0.5:
+            ext += steps(1, 8)
+            ext.append(['now', ['shutdown', 1001]])
+            ext += steps(1, 6)
+            ext.append(['now', ['restore', 1001]])
+    ext += steps(20, 60) if not big else steps(60, 160)
+    ext.append(['run', rng.choice([40, 80]) if not big else rng.choice([160, 320])])
+    return dict(seed=rng.randint(0, 1000), mod=rng.choice([1, 3, 3, 1 << 20]), entities=ents, pools=[], uops=uops, ext=ext, focus='late')
+
+
 def gen(rng, size='small', focus=None):
-    focus = focus or rng.choice(['plain', 'plain', 'faults', 'resources', 'buffers', 'batches', 'groups', 'gates', 'maint', 'rewire', 'mixed', 'parallel'])
+    focus = focus or rng.choice(['plain', 'plain', 'faults', 'resources', 'buffers', 'batches', 'groups', 'gates', 'maint', 'rewire', 'mixed', 'parallel', 'late'])
+    if focus == 'late':
+        return gen_late(rng, size)
     if focus == 'mixed':
         return gen_mixed(rng, size)
     if focus == 'parallel':
@@ -125,7 +189,7 @@ def gen(rng, size='small', focus=None):
     sources = []
     for _ in range(nsrc):
         c = cyc()
-        budget = rng.choice([None, None, 3, 5, 8, 12])
+        budget = rng.choice([None, None, 3, 5, 8, 12, 0])
         if c == 0:
             budget = rng.choice([2, 4, 6])
         e = dict(kind='source', cycle=c, budget=budget, gen_value=8 * rng.choice([0, 1, 5]), gen_quality=rng.choice([0, 4, 8, 12]),
